@@ -287,8 +287,12 @@ AnnDefFits(r, a) ==
 \* nsa imports nsb; names: nsb (a namespace), Dep (an annotation), Note (an annotation type), ra (a route), Aa (alias of String, fine),
 \* Zz (undefined); the member may or may not have an example / default
 BadTypes == {"nsb", "Dep", "Note", "ra", "Aa", "Zz", "nsb.Tb", "nsb.Fo", "stone_cfg.Route"}
-TypeSites == {"field", "field_example", "tag", "alias", "route_arg", "list_item", "field_nullable"}
-TypeNameFits(site, n) == IF n = "stone_cfg.Route" THEN "unspec"        \* the attribute schema used as a data type: not documented
+\* route_two / route_four: a route signature of two / four types -- "Route ::= 'route' Identifier ... '(' TypeRef ','
+\* TypeRef ',' TypeRef ')'": four are refused; what two mean is not documented (the parser has a rule for it)
+TypeSites == {"field", "field_example", "tag", "alias", "route_arg", "list_item", "field_nullable", "route_two", "route_four"}
+TypeNameFits(site, n) == IF site = "route_four" THEN "rej"
+                         ELSE IF site = "route_two" THEN (IF n \in {"Aa", "nsb.Tb", "stone_cfg.Route"} THEN "unspec" ELSE "rej")
+                         ELSE IF n = "stone_cfg.Route" THEN "unspec"        \* the attribute schema used as a data type: not documented
                          ELSE IF n \in {"Aa", "nsb.Tb"} THEN (IF site = "route_arg" /\ n = "Aa" THEN "unspec" ELSE "acc") ELSE "rej"
 
 \* ------------------------------------------------------------- the machine
